@@ -18,6 +18,9 @@ Two independent judgements per history:
       sendSignal / broadcastSignal) and handed to the model as `Effect`s.
   S4  the oracle below: a reference router written from the property statement, fed only with the
       history and the received lists (and, for well-known names, the bus's own name table - C13's).
+
+A fifth, oracle-only stream 'unicast-with-descriptor' (not a correspondence obligation, not modelled) sends
+method calls that carry a stand-in descriptor through the bus and reports the KNOWN finding `bus-drops-descriptors`.
 """
 import hashlib
 import itertools
@@ -159,6 +162,7 @@ class Net:
         self.factory.protocol = bus.BusProtocol
         self.clients = []          # dicts: p, t, alive, ruled
         self.wlog = []             # global write log (client index, bytes)
+        self.fdlog = []            # descriptors handed to a transport: (client index, fd, position in wlog)
         self.effects = []
         self.steps = []
         self.cur = None
@@ -200,6 +204,9 @@ class Net:
             def loseConnection(self):
                 self.lose_calls += 1
                 net.StringTransport.loseConnection(self)
+
+            def sendFileDescriptor(self, fd):
+                net.fdlog.append((idx, fd, len(net.wlog)))
         p = self.busmod.BusProtocol()
         p.factory = self.factory
         t = T()
@@ -972,6 +979,83 @@ EXEMPLARS = {
 }
 
 
+# --------------------------------------------------------------------------- descriptors through the bus (oracle only)
+FD_WHAT = ('the built-in bus forwards a descriptor-carrying message without its descriptors and without the unix_fds '
+           'header field; the sender\'s descriptor queue is not consumed')
+
+# name -> list of reads by client 0; a read is a list of (stand-in descriptor, destination) messages that arrive
+# together, their descriptors having been received (fileDescriptorReceived) just before the bytes
+FD_CASES = {
+    'one-message': [[(1007, '@1')]],
+    'two-messages-two-reads': [[(1007, '@1')], [(1008, '@1')]],
+    'two-messages-one-read': [[(1007, '@1'), (1008, '@1')]],
+    'to-well-known-name-then-unique': [[(1007, 'org.ex.A')], [(1008, '@1')]],
+    'second-message-to-third-client': [[(1007, '@1')], [(1008, '@2')]],
+}
+
+
+def run_fd_case(name):
+    """Client 0 receives a (stand-in) descriptor and sends a method call with signature 'h' that refers to it.
+    Returns the list of per-message observations; `ok` is what the statement asks for."""
+    net = Net()
+    B = bodies()
+    serial = 1
+    for _ in range(3):
+        net.connect()
+    for i in range(3):
+        net.feed(i, [build(net.message, B, dict(t=1, serial=serial, path=BUSPATH, iface=BUS, member='Hello', dest=BUS))])
+        serial += 1
+    net.feed(1, [build(net.message, B, dict(t=1, serial=serial, path=BUSPATH, iface=BUS, member='RequestName', dest=BUS,
+                                            sigbody=('su', ['org.ex.A', 0])))])
+    serial += 1
+    names = [c['p'].uniqueName for c in net.clients]
+    owner = {'org.ex.A': 1}
+    obs = []
+    p0 = net.clients[0]['p']
+    for read in FD_CASES[name]:
+        raws, expect = [], []
+        for fd, dest in read:
+            d = names[int(dest[1:])] if dest.startswith('@') else dest
+            m = net.message.MethodCallMessage('/x', 'TakeThis', interface='org.ex.I', destination=d,
+                                              signature='h', body=[fd], oobFDs=[])
+            m.serial = serial
+            m._marshal(False, oobFDs=[fd])
+            serial += 1
+            raws.append(m.rawMessage)
+            expect.append((fd, int(dest[1:]) if dest.startswith('@') else owner[dest], m.serial))
+            p0.fileDescriptorReceived(fd)
+        w0, f0 = len(net.wlog), len(net.fdlog)
+        try:
+            p0.dataReceived(b''.join(raws))
+        except Exception as e:
+            obs.append({'ok': False, 'exception': '%s: %s' % (type(e).__name__, str(e)[:120])})
+            break
+        for fd, j, ser in expect:
+            got = [raw for k, raw in net.wlog[w0:] if k == j]
+            fwd = [net.message.parseMessage(raw, [fd]) for raw in got]
+            fwd = [x for x in fwd if x.serial == ser and x.sender == names[0]]
+            declared = [getattr(x, 'unix_fds', None) for x in fwd]
+            handed = [f for k, f, _ in net.fdlog[f0:] if k == j]
+            o = {'descriptor': fd, 'destination': j, 'forwarded_copies': len(fwd), 'unix_fds_declared': declared,
+                 'descriptors_given_to_destination': handed}
+            o['ok'] = (len(fwd) == 1 and declared == [1] and fd in handed)
+            obs.append(o)
+        left = len(p0._receivedFDs)
+        obs.append({'sender_queue_left': left, 'ok': left == 0})
+    return obs
+
+
+def judge_fd(ctx, name):
+    obs = run_fd_case(name)
+    ctx.case('unicast-with-descriptor', sample={'fdcase': name}, nontrivial=True)
+    ctx.impl_trace()
+    ctx.stat('descriptor-case')
+    if not all(o['ok'] for o in obs):
+        ctx.violation('bus-drops-descriptors', FD_WHAT, inp={'fdcase': name, 'reads': FD_CASES[name]},
+                      observed=obs, expected='every message arrives once, declaring unix_fds=1, its descriptor handed to '
+                      'the destination\'s transport; nothing left in the sender\'s queue')
+
+
 # --------------------------------------------------------------------------- shrinking
 def shrink(ops, key, budget=150):
     """Drop operations (never a connect: indices would shift) while the same violation key remains."""
@@ -1035,8 +1119,14 @@ def run(ctx):
 
     compare(ctx, collected)
 
+    # descriptor-carrying messages: judged by the oracle only (known finding bus-drops-descriptors; not modelled)
+    for name in sorted(FD_CASES):
+        judge_fd(ctx, name)
+
     # minimise the exemplar of every violated key
     for v in ctx.violations:
+        if 'ops' not in v['input']:
+            continue
         small = shrink(v['input']['ops'], v['key'])
         if len(small) < len(v['input']['ops']):
             net, _ = run_history(small)
@@ -1048,6 +1138,9 @@ def run(ctx):
 
 def replay(ctx, data):
     inp = data.get('input') or {}
+    if inp.get('fdcase') in FD_CASES:
+        judge_fd(ctx, inp['fdcase'])
+        return
     ops = inp.get('ops')
     if ops is None:
         return
